@@ -1,5 +1,6 @@
 """Adversarial document grammar for C17."""
 import random
+import re
 
 from picomon.gen import docs as gd
 
@@ -25,6 +26,14 @@ def use_cycle(rng):
         uses = "".join(f'<use xlink:href="#g{(i + 1) % n}" x="{k}"/>' for k in range(fan))
         parts.append(f'<g id="g{i}">{_rect(rng)}{uses}</g>')
     label = f"use_cycle_{n}_fan{fan}"
+    if rng.random() < 0.25:
+        # white space around the fragment: whether such a reference resolves is the implementation's business,
+        # but every part of it must agree
+        ws = rng.choice((" ", "\n", "\t"))
+        i = rng.randrange(len(parts))
+        parts[i] = parts[i].replace('xlink:href="#g', 'xlink:href="#' + rng.choice(("", ws)) + "g", 1)
+        parts[i] = re.sub(r'(xlink:href="#\s?g\d+)"', lambda m: m.group(1) + ws + '"', parts[i], count=1)
+        label += "_ws"
     k = rng.random()
     if k < 0.45:
         # something with an id that is NOT part of the cycle leads into it - before, inside or after
